@@ -205,6 +205,8 @@ void GridGlobal::updateGrid(int depth, TypeDepth type, const std::vector<int> &a
         if (!(updated_tensors - tensors).empty()){
             updated_tensors += tensors;
             proposeUpdatedTensors();
+        }else{
+            updated_tensors = MultiIndexSet(); // nothing new is proposed, do not keep a pending update without active tensors
         }
     }
 }
